@@ -997,3 +997,54 @@ def writer_coverage(prog, fn, adt_path, sink_pat=WRITER_SINKS, control=True):
     adt = prog.adt(adt_path)
     allf = [f["n"] for v in adt["variants"] for f in v["fields"]]
     return names, allf, ns
+
+
+# ------------------------------------------------------------------ near origins (value identity through trivial adapters)
+
+TRIVIAL_CALLS = re.compile(r"::(try_from|try_into|from|into|branch|unwrap_or|unwrap_or_default|unwrap_or_else|ok_or|ok_or_else|map_err|as_ref|as_mut|clone|copied|cloned|deref|"
+                           r"checked_mul|checked_add|checked_sub|saturating_mul|saturating_add|wrapping_add|from_residual|to_owned|as_usize|as_u64|as_u32|get|from_raw|into_inner)$")
+
+
+def near_origins(fn, operand, max_nodes=400):
+    """Where does this value come from, looking only through assignments, projections and *trivial* adapter calls
+    (conversions, `?`, checked arithmetic)?  Returns a set of ('call', callee, bb) | ('param', i) | ('const', key) |
+    ('agg', adt, bb).  Unlike the deep origins this does not merge everything that ever touched a `&mut` cursor."""
+    defs = fn.defs()
+    out = set()
+    seen = set()
+    stack = [operand]
+    n = 0
+    while stack and n < max_nodes:
+        o = stack.pop()
+        n += 1
+        if "k" in o:
+            out.add(("const", o.get("def") or o.get("v") or o.get("k")))
+            continue
+        p = op_place(o)
+        if p is None:
+            continue
+        l = p[0]
+        if l in seen:
+            continue
+        seen.add(l)
+        for d in defs.get(l, ()):
+            if d[0] == "param":
+                out.add(("param", d[1]))
+            elif d[0] == "call":
+                bb, t = d[1], d[2]
+                callee = fn.callee_of(t) or "(indirect)"
+                if TRIVIAL_CALLS.search(callee):
+                    for a in t["args"][:1] if not re.search(r"checked_|saturating_|wrapping_", callee) else t["args"]:
+                        stack.append(a)
+                else:
+                    out.add(("call", callee, bb))
+            elif d[0] == "assign":
+                rv = d[4]
+                if rv["r"] == "agg" and rv.get("ak") == "adt":
+                    out.add(("agg", rv.get("adt"), d[1]))
+                    continue
+                for o2 in operands_of_rvalue(rv):
+                    stack.append(o2)
+                if "p" in rv:
+                    stack.append({"c": rv["p"]})
+    return out
